@@ -294,6 +294,14 @@ R_Duplicate(op, p, i) == LET L == SelsAt(op.sel, p) IN
 
 \* duplicate a field under the SAME response key (norm lane); a composite field with >= 2 sub-selections is
 \* split into two same-key selections with complementary sub-selections:  b { id name }  ->  b { id } b { name }
+\* an identical copy under the same response key (id id) is plain valid GraphQL the datasource de-duplicates itself;
+\* only a real split (complementary sub-selections) relies on the planner's normalization
+SplitNormOnly(op, p, i) == Len(SelsAt(op.sel, p)[i].sel) >= 2
+\* two selections with the same response key in one selection list that are not identical copies
+RECURSIVE SameKeyDiffer(_)
+SameKeyDiffer(sel) ==
+  \/ \E i, k \in DOMAIN sel : i < k /\ sel[i].k = "f" /\ sel[k].k = "f" /\ Key(sel[i]) = Key(sel[k]) /\ sel[i] # sel[k]
+  \/ \E i \in DOMAIN sel : SameKeyDiffer(sel[i].sel)
 E_Split(op, p, i) == LET L == SelsAt(op.sel, p) IN i \in DOMAIN L /\ L[i].k = "f" /\ CountSels(op.sel) < MaxSels
 R_Split(op, p, i) == LET L == SelsAt(op.sel, p)
                          f == L[i]
@@ -332,6 +340,14 @@ R_Distribute(op, p, i) == LET L == SelsAt(op.sel, p)
 \* select a subset: drop one selection (the operation must stay well-formed)
 E_Subset(op, p, i) == LET L == SelsAt(op.sel, p) IN i \in DOMAIN L /\ Len(L) >= 2 /\ ~Guarded(op, p, i)
 R_Subset(op, p, i) == [op EXCEPT !.sel = PutAt(op.sel, p, RemoveAt(SelsAt(op.sel, p), i))]
+
+(* ----------------------------------------- same operation, other variables *)
+\* not a reformulation: the operation text stays the same, only the value of one field's arguments changes
+\* (reuse lane: one planned datasource is loaded with several variable sets)
+E_Revalue(op, p, i, as) == LET L == SelsAt(op.sel, p) IN i \in DOMAIN L /\ L[i].k = "f" /\ Len(L[i].args) > 0 /\ L[i].args # as
+                           /\ L[i].name # "_entities"
+R_Revalue(op, p, i, as) == LET L == SelsAt(op.sel, p) IN
+                           [op EXCEPT !.sel = PutAt(op.sel, p, [L EXCEPT ![i] = [@ EXCEPT !.args = as]])]
 
 (* ---------------------------------------------------- reference executor *)
 \* A free data universe: the value found at a position is (a rendering of) the position itself; lists have
